@@ -856,6 +856,9 @@ static iwrc _fsm_blk_deallocate_lw(
 
   if (IW_UNLIKELY(fsm->oflags & IWFSM_STRICT)) {
     bopts |= FSM_BM_STRICT;
+    /* Refuse the whole range before any bit is cleared */
+    rc = _fsm_set_bit_status_lw(fsm, offset_blk, length_blk, 0, FSM_BM_DRY_RUN | FSM_BM_STRICT);
+    RCRET(rc);
   }
   rc = _fsm_set_bit_status_lw(fsm, offset_blk, length_blk, 0, bopts);
   RCRET(rc);
